@@ -270,6 +270,8 @@ func harnessTarget(dir string) string {
 		return "cmd/thruserv"
 	case "ice":
 		return "internal/ice"
+	case "wsclient":
+		return "internal/wsclient"
 	case "scheduler":
 		return "internal/scheduler"
 	}
